@@ -22,7 +22,7 @@ def worker_env(extra=None):
 
 
 def run_worker(prop, tier, seed, batch, nbatch, outdir, timeout, replay=None, budget_s=None, env=None):
-    out = os.path.join(outdir, 'b%03d%s.json' % (batch, '-replay' if replay else ''))
+    out = os.path.join(outdir, 'b%03d%s%s.json' % (batch, '-replay' if replay else '', '-h' + env['PYTHONHASHSEED'] if env and 'PYTHONHASHSEED' in env else ''))
     cmd = [PY, '-m', 'vlark.worker', prop, '--tier', tier, '--seed', str(seed), '--batch', str(batch),
            '--nbatch', str(nbatch), '--out', out]
     if replay:
@@ -89,9 +89,36 @@ def _main(a, prop, mod, t0, tmp):
     budget = getattr(mod, 'BUDGET_S', {'quick': 100, 'thorough': 1200})[tier]
     timeout = budget * 2 + 120
     env = getattr(mod, 'WORKER_ENV', None)
+    hashseeds = getattr(mod, 'HASHSEEDS', {}).get(tier)
     with ThreadPoolExecutor(max_workers=a.jobs) as ex:
         futs = [ex.submit(run_worker, prop, tier, a.seed, b, nbatch, tmp, timeout, None, budget, env) for b in range(nbatch)]
+        sweep = []
+        if hashseeds:
+            # the same batches again in fresh processes under other hash seeds; only their aux maps are used
+            for hs in hashseeds:
+                e2 = dict(env or {}, PYTHONHASHSEED=str(hs), VLARK_AUX_ONLY='1')
+                sweep += [(b, hs, ex.submit(run_worker, prop, tier, a.seed, b, nbatch, tmp, timeout, None, budget, e2)) for b in range(nbatch)]
         results = [f.result() for f in futs]
+        sweep = [(b, hs, f.result()) for b, hs, f in sweep]
+    sweep_violations = []
+    sweep_compared = 0
+    for b, hs, r in sweep:
+        base = results[b].get('aux') or {}
+        if r.get('status') != 'done':
+            results.append(r)       # reported as a problem below
+            continue
+        other = r.get('aux') or {}
+        for k, v in base.items():
+            if k in other:
+                sweep_compared += 1
+                if other[k][0] != v[0]:
+                    sweep_violations.append({'mechanism': 'differs-across-hash-seeds', 'finding': None,
+                                             'case': dict(v[1], hashseeds=[0, hs]), 'detail': {'hashseed': hs, 'digests': [v[0], other[k][0]]}})
+        missing = set(base) ^ set(other)
+        if missing:
+            sweep_violations.append({'mechanism': 'case-set-differs-across-hash-seeds', 'finding': None,
+                                     'case': {'batch': b, 'hashseeds': [0, hs]}, 'detail': {'n': len(missing)}})
+        results.append({'status': 'done', 'counters': {'hashseed-sweep-runs': 1}})
 
     counters, monitors, max_steps, anchors = {}, {}, {}, {}
     evaluations = 0
@@ -114,6 +141,9 @@ def _main(a, prop, mod, t0, tmp):
         samples.extend((r.get('samples') or [])[:2])
         violations.extend(r.get('violations') or [])
         inconc.extend(r.get('inconclusive') or [])
+    violations.extend(sweep_violations[:50])
+    if hashseeds:
+        counters['hashseed-comparisons'] = sweep_compared
 
     known = load_known()
     known_seen = {}
